@@ -231,13 +231,14 @@ def run(tier):
                       "representation state.")
     ck.assumptions = ["atoms partition the element domain; all driver arguments are atom end points",
                       "hook H2 (verif_repr) reports the representation faithfully"]
-    names = ["small3", "u32", "discq", "one"] if tier == "quick" else ["small3", "u32", "discq", "disc", "one", "glyphid", "u16", "small4"]
+    names = ["small3", "u32", "discq", "one"] if tier == "quick" else ["small3", "u32", "discq", "disc", "one", "glyphid", "u16"] + (["small4"] if os.environ.get("VERIF_DEEP") else [])
     if tier == "quick":
         for n in names:
             part_refine(ck, n, workers=4)
     else:
-        # the configurations are independent (own working directories): run them side by side, the replays are
-        # single-threaded and the largest one (small4) takes about 20 minutes on its own
+        # the configurations are independent (own working directories): run them side by side; the replays are
+        # single-threaded. The largest configuration (small4: four pages, 30+ minutes of replay on its own) only runs with
+        # VERIF_DEEP=1; its random histories are validated in every thorough run
         from concurrent.futures import ThreadPoolExecutor
         with ThreadPoolExecutor(max_workers=4) as pool:
             futs = [pool.submit(part_refine, ck, n, 4) for n in names]
